@@ -26,6 +26,9 @@ fn strategy() -> impl Strategy<Value = History> {
     let auth = (any::<u16>(), proptest::bool::weighted(0.8), cm::bytes(32), any::<u8>(), any::<u16>()).prop_map(|(k, targeted, challenge, uv, s)| {
         Op::Auth(AuthOp { site: [0usize, 1, 2, 8][s as usize % 4], challenge, allow: if targeted { AllowSel::Ids(vec![IdRef::Known(k, true)]) } else { AllowSel::Absent }, cd: CdMode::Default, uv })
     });
+    let fault = (any::<u16>(), cm::bytes(16), prop_oneof![Just(0x2Eu8), Just(0x28), Just(0x7F), Just(0x01), Just(0x00)]).prop_map(|(k, challenge, code)| {
+        Op::AuthUpdateFault(AuthOp { site: 0, challenge, allow: AllowSel::Ids(vec![IdRef::Known(k, true)]), cd: CdMode::Default, uv: 0 }, code)
+    });
     let reg = cm::reg_op(sites).prop_map(|mut r| {
         r.algs = vec![-7];
         Op::Reg(r)
@@ -34,7 +37,7 @@ fn strategy() -> impl Strategy<Value = History> {
         prop_oneof![3 => Just(StoreKind::Ref), 2 => Just(StoreKind::Memory), 1 => Just(StoreKind::OptionSlot)],
         cm::auth_cfg(),
         proptest::collection::vec((0usize..3, start_counter(), any::<bool>()), 1..5),
-        proptest::collection::vec(prop_oneof![8 => auth, 1 => reg], 2..41),
+        proptest::collection::vec(prop_oneof![16 => auth, 2 => reg, 1 => fault], 2..41),
     )
         .prop_map(|(store, cfg, preload, ops)| History { store, disc: Disc::ForcedDiscoverable, cfg, preload, ops })
 }
@@ -46,6 +49,7 @@ fn check(ctx: &mut Ctx, h: &History) -> Result<(), String> {
     ctx.class_n("assertions/success", stats.auth_ok);
     ctx.class_n("assertions/not-found", stats.auth_not_found);
     ctx.class_n("assertions/other-error(measured)", stats.auth_unexpected_err);
+    ctx.class_n("assertions/failed-while-store-rejects-update", stats.auth_faulted_err);
     ctx.class(&format!("store/{:?}", h.store));
     let near_max = h.preload.iter().any(|(_, c, _)| c.is_some_and(|c| c >= u32::MAX - 2));
     if near_max {
